@@ -1204,31 +1204,38 @@ impl<'a> TLVSequenceTLVIter<'a> {
     }
 
     fn try_next(&mut self) -> Result<Option<TLV<'a>>, Error> {
-        let current = self.seq.current()?;
-        if current.is_empty() {
+        if self.seq.0.is_empty() {
             return Ok(None);
         }
 
-        self.advance()?;
+        let control = self.seq.control()?;
 
-        Ok(Some(TLV::new(current.tag()?, current.value()?)))
-    }
+        if control.is_container_end() {
+            control.confirm_container_end()?;
 
-    fn advance(&mut self) -> Result<(), Error> {
-        if self.nesting > 0 || !self.seq.0.is_empty() && !self.seq.control()?.is_container_end() {
+            if self.nesting == 0 {
+                // The end marker of the container whose content is being iterated
+                return Ok(None);
+            }
+
+            // The end of a nested container is reported as a TLV of its own
+            self.nesting -= 1;
             self.seq = self.seq.next_enter()?;
 
-            let control = self.seq.control()?;
-
-            if control.is_container_start() {
-                self.nesting += 1;
-            } else if control.is_container_end() {
-                // When iterating the content of a container, its own end marker is reached at nesting 0
-                self.nesting = self.nesting.saturating_sub(1);
-            }
+            return Ok(Some(TLV::end_container()));
         }
 
-        Ok(())
+        let current = TLVElement::new(self.seq.0);
+        let tlv = TLV::new(current.tag()?, current.value()?);
+
+        if control.is_container_start() {
+            // The elements of a nested container follow, up to its end marker
+            self.nesting += 1;
+        }
+
+        self.seq = self.seq.next_enter()?;
+
+        Ok(Some(tlv))
     }
 }
 
